@@ -191,7 +191,7 @@ class Facts:
 
     def adt(self, path, required=True):
         cname = path.split("::", 1)[0]
-        for a in self.crate(cname).adts:
+        for a in (self.crate(cname).adts if cname in self.info["files"] else []):
             if a["path"] == path:
                 return a
         if required:
